@@ -66,17 +66,21 @@ pub trait Encode {
     fn encode(&self) -> u64;
     fn estimate(&self) -> usize;
 }
+// `estimate` is the size the MODEL works with. For the built-in types it is computed HERE, from
+// the definition in the property (inline size + heap capacity owned; what the cache stores is a
+// clone, whose capacity is its length) and not by the library's estimator, so that a wrong
+// estimator shows up as a cache that evicts or refuses differently from the model.
 impl Encode for u64 {
     fn encode(&self) -> u64 { 2 * *self }
-    fn estimate(&self) -> usize { cachelito_core::MemoryEstimator::estimate_memory(&self.clone()) }
+    fn estimate(&self) -> usize { std::mem::size_of::<u64>() }
 }
 impl Encode for String {
     fn encode(&self) -> u64 { 2 * self.trim().parse::<u64>().unwrap_or(999_999) }
-    fn estimate(&self) -> usize { cachelito_core::MemoryEstimator::estimate_memory(&self.clone()) }
+    fn estimate(&self) -> usize { std::mem::size_of::<String>() + self.len() }
 }
 impl Encode for Result<u64, u64> {
     fn encode(&self) -> u64 { match self { Ok(v) => 2 * v, Err(v) => 2 * v + 1 } }
-    fn estimate(&self) -> usize { cachelito_core::MemoryEstimator::estimate_memory(&self.clone()) }
+    fn estimate(&self) -> usize { std::mem::size_of::<Result<u64, u64>>() }
 }
 impl Encode for Result<String, String> {
     fn encode(&self) -> u64 {
@@ -85,7 +89,9 @@ impl Encode for Result<String, String> {
             Err(v) => 2 * v.parse::<u64>().unwrap_or(999_999) + 1,
         }
     }
-    fn estimate(&self) -> usize { cachelito_core::MemoryEstimator::estimate_memory(&self.clone()) }
+    fn estimate(&self) -> usize {
+        std::mem::size_of::<Result<String, String>>() + match self { Ok(v) | Err(v) => v.len() }
+    }
 }
 pub fn enc<T: Encode>(v: &T) -> u64 {
     v.encode()
